@@ -5,6 +5,7 @@ import KojenVerif.Lemmas.EnginePgt
 import KojenVerif.Lemmas.EngineNestedWF
 import KojenVerif.Lemmas.EngineProto
 import KojenVerif.Lemmas.EngineSecondWF
+import KojenVerif.Lemmas.EngineSecondClosed
 import KojenVerif.Lemmas.Str
 /-
   C16 — template engine: per-element blocks expand once per element, in model order.
@@ -211,6 +212,20 @@ theorem C16_second_filtering (env : Env) (ht : EnvTotal env) (m : Spec.Model) (i
     (h : SecondOK m items) :
     expandSecond env (toSm m) (Spec.renderFile items) = some (Spec.renderFile (secondOut m items)) :=
   expandSecond_items env ht m items h
+
+/-- **the second filtering in closed form**: the nine passes together replace the initial state's tag and
+    every block - per-element block or nested transition block - by its expansion, in place, and leave every
+    other item exactly as it is -/
+theorem C16_second_filtering_closed (env : Env) (ht : EnvTotal env) (m : Spec.Model) (items : List Spec.Item)
+    (h : SecondOK m items) :
+    expandSecond env (toSm m) (Spec.renderFile items) =
+      some (Spec.renderFile ((items.map (Spec.Item.subst (Spec.byDict (st0Keys m)))).flatMap (fun it =>
+        match it with
+        | .block k _ body => (Spec.expandBlock m k body).map .b
+        | .pst _ body => (Spec.expandPst m.table body).map .b
+        | it => [it]))) := by
+  rw [expandSecond_items env ht m items h, secondOut_closed]
+  rfl
 
 /-- what is left after the second filtering contains no block any more: only lines, conditionals, loops -/
 theorem C16_second_filtering_flat (m : Spec.Model) (items : List Spec.Item) :
